@@ -1,4 +1,4 @@
-CONSTANTS MaxTokens = 40  MaxNest = 6  OnlyValid = TRUE  Small = FALSE
+CONSTANTS MaxTokens = 17  MaxNest = 2  OnlyValid = TRUE  Small = TRUE
 SPECIFICATION Spec
 INVARIANTS AcceptHasType AcceptBalanced Emit
 CHECK_DEADLOCK FALSE
